@@ -19,6 +19,7 @@ use self::State::*;
 pub use self::Status::*;
 
 //§ tokenizing-character-references
+#[cfg_attr(html5ever_verif, derive(Debug))]
 pub struct CharRef {
     /// The resulting character(s)
     pub chars: [char; 2],
@@ -43,6 +44,7 @@ enum State {
     BogusName,
 }
 
+#[cfg_attr(html5ever_verif, derive(Debug))]
 pub struct CharRefTokenizer {
     state: State,
     addnl_allowed: Option<char>,
